@@ -158,6 +158,50 @@ def mk(fname, H, W, sigma, held_sigma=None, via_copy=False):
     return h
 
 
+HIST = [e for e in SIGMA_2C if e[0] in ('Floor', 'Key(YELLOW)', 'Door(CLOSED,YELLOW)', 'Box(Key(YELLOW))', 'Box(Box(Floor))')]
+
+
+def mk_history(H, W, nsteps):
+    """conservation along short histories of the full chain, on the objects the earlier steps produced (all cells read up front)"""
+    f = transition('chain[move,turn,actuate_door,actuate_box,pickndrop]')
+
+    def inventory(state):
+        c = Counter()
+        for y in range(H):
+            for x in range(W):
+                o = state.grid.objects[y][x]
+                if not isinstance(o, Floor):
+                    c[desc(o)] += 1
+        g = state.agent.grid_object
+        if not isinstance(g, (NoneGridObject, Floor)):
+            c[desc(g)] += 1
+        return c
+
+    def h(sx):
+        state, world = lazy_state(sx, H, W, HIST, held_sigma=[e for e in HIST if e[0].startswith('Key')])
+        inv = inventory(state)
+        for step in range(nsteps):
+            a = sx.choice(f'a{step}', [Action.ACTUATE, Action.PICK_N_DROP, Action.TURN_LEFT, Action.MOVE_FORWARD])
+            py, px, o = state.agent.position.y, state.agent.position.x, state.agent.orientation
+            dy, dx = rot(TURNS[o], -1, 0)
+            fy, fx = py + dy, px + dx
+            exp = Counter(inv)
+            if a is Action.ACTUATE and sym_and(0 <= fy, fy < H, 0 <= fx, fx < W):
+                front = state.grid.objects[int(fy)][int(fx)]
+                if isinstance(front, Box):
+                    exp[desc(front)] -= 1
+                    if not isinstance(front.content, Floor):
+                        exp[desc(front.content)] += 1
+                    sx.cover('box-opened-in-history' if step else 'box-opened')
+            f(state, a)
+            inv = inventory(state)
+            sx.check(+exp == +inv, f'multiset-conserved-step{step}', f'action {a.name}: {dict(+exp)} -> {dict(+inv)}')
+            stateful = [o for row in state.grid.objects for o in row if isinstance(o, (Door, Box))]
+            sx.check(len({id(o) for o in stateful}) == len(stateful), f'no-duplicate-instance-step{step}')
+        sx.cover('history')
+    return h
+
+
 def obligations(tier):
     sigma = SIGMA_2C if tier == 'quick' else SIGMA_FULL
     shp = shapes(3, 3) if tier == 'quick' else shapes(4, 4) + [(5, 5)]
@@ -174,6 +218,8 @@ def obligations(tier):
                 hs = []
             obs.append(Obligation(f'{fname}-{H}x{W}', mk(fname, H, W, s, hs),
                                   dict(function=fname, H=H, W=W, alphabet=[e[0] for e in s] if scan else len(s))))
+    for (H, W, n) in ([(1, 2, 3), (1, 3, 2)] if tier == 'quick' else [(1, 2, 3), (1, 3, 3), (2, 2, 2)]):
+        obs.append(Obligation(f'history-{n}steps-{H}x{W}', mk_history(H, W, n), dict(H=H, W=W, steps=n, alphabet=[e[0] for e in HIST])))
     # the same oracle through transition_with_copy (what functional_step does): objects must survive the copy as well
     boxes = [e for e in sigma if e[0] in ('Floor', 'Wall', 'Key(YELLOW)', 'Box(Floor)', 'Box(Key(YELLOW))', 'Box(Box(Floor))', 'Door(CLOSED,YELLOW)')]
     for fname in ['chain[move,turn,actuate_door,actuate_box,pickndrop]', 'pickndrop', 'actuate_box']:
